@@ -7,6 +7,9 @@
 //!   `go <uci go arguments>`       run one search to completion
 //!   `stopgo <N> <go arguments>`   poll every N negamax nodes and have a `stop` waiting in the channel
 //!   `quitgo <N> <go arguments>`   same with `quit`
+//!   `midgo <N> <m,m,...> <go arguments>`  poll every N nodes with the listed messages waiting in the channel behind the go:
+//!                                 `new` `stop` `quit` `ponderhit` `debugon` `debugoff` `pos=<fen_>` (any order, repeats allowed);
+//!                                 messages the search did not consume are consumed by idle afterwards, as in the engine
 //!   `clock <ns per node|->`       virtual clock (elapsed = nodes * ns)
 //!   `poll <N|->`                  poll period
 //!   `board`                       read back the position held by the search
@@ -99,6 +102,40 @@ impl Session {
             }
             _ => None,
         }
+    }
+
+    /// `go` with arbitrary messages waiting in the channel behind it; polled every `n` nodes.  Returns None when the go
+    /// line or a message does not parse.
+    pub fn go_with_pending(&mut self, text: &str, pending: &[&str], n: u64) -> Option<Vec<UciTxCommand>> {
+        let go = match CommandParser::new(text).parse() {
+            Ok(UciCommand::Go { go }) => go,
+            _ => return None,
+        };
+        let mut msgs = vec![SearchMessage::UciGo(go)];
+        for p in pending {
+            msgs.push(match *p {
+                "new" => SearchMessage::UciUciNewGame,
+                "stop" => SearchMessage::UciStop,
+                "quit" => SearchMessage::UciQuit,
+                "ponderhit" => SearchMessage::UciPonderHit,
+                "debugon" => SearchMessage::UciDebug(true),
+                "debugoff" => SearchMessage::UciDebug(false),
+                other => {
+                    let fen = other.strip_prefix("pos=")?;
+                    match CommandParser::new(&format!("position fen {}", fen.replace('_', " "))).parse() {
+                        Ok(UciCommand::PositionFrom { fen, moves }) => SearchMessage::UciPositionFrom(fen, moves),
+                        _ => return None,
+                    }
+                }
+            });
+        }
+        let k = msgs.len() - 1;
+        self.send_run(msgs, 1);
+        // consumed during the search iff a poll happened, i.e. more than `n` nodes were entered; otherwise idle gets them
+        if self.search.verif_negamax_nodes() <= n && k > 0 {
+            self.search.verif_run(k);
+        }
+        Some(self.drain())
     }
 
     pub fn board_fen(&self) -> String {
@@ -228,6 +265,14 @@ pub fn session_op(args: &[&str]) -> String {
                 s.set_poll(Some(n));
                 let text = format!("go {}", cmd[2..].join(" "));
                 answers.push(s.go(&text, Some((cmd[0] == "quitgo", n))).map_or("E".into(), |o| render_out(&o)));
+                s.set_poll(None);
+            }
+            "midgo" if cmd.len() >= 3 => {
+                let n = opt_num(cmd[1]).unwrap_or(100_000);
+                s.set_poll(Some(n));
+                let pend: Vec<&str> = cmd[2].split(',').filter(|t| !t.is_empty() && *t != "-").collect();
+                let text = format!("go {}", cmd[3..].join(" "));
+                answers.push(s.go_with_pending(&text, &pend, n).map_or("E".into(), |o| render_out(&o)));
                 s.set_poll(None);
             }
             "clock" => {
